@@ -141,7 +141,7 @@ static inline void increment_receive_packet_counter(void) { ++G_rxc; }
 bool W_sn, W_nesn, W_next_empty, W_empty_sn, W_stopped; size_t W_tx_n, W_lo; uint16_t W_hr, W_h0, W_h1, W_he; bool W_arg;
 #define STATE_OK(self) (__CPROVER_is_fresh(self, sizeof(struct llb)) && (self)->sequence_number_ == W_sn && (self)->next_expected_sequence_number_ == W_nesn \
    && (self)->next_empty_ == W_next_empty && (self)->empty_sequence_number_ == W_empty_sn && (self)->stopped_ == W_stopped && HDR((self)->empty_) == W_he \
-   && G_layout_overhead <= 1 && G_layout_overhead == W_lo && G_tx_n == W_tx_n && G_tx_pops == 0 && G_tx_pushes == 0 && G_rx_pushes == 0 && G_txc == 0 && G_rxc == 0 \
+   && G_layout_overhead <= 1 && G_layout_overhead == W_lo && G_tx_n == W_tx_n && W_tx_n <= 3 /* 3 stands for 'three or more': a step pops at most one PDU and only asks 'none / one / more than one' */ && G_tx_pops == 0 && G_tx_pushes == 0 && G_rx_pushes == 0 && G_txc == 0 && G_rxc == 0 \
    && __CPROVER_is_fresh(G_tx_p0, PDU_MEM) && __CPROVER_is_fresh(G_tx_p1, PDU_MEM) && HDR(G_tx_p0) == W_h0 && HDR(G_tx_p1) == W_h1)
 /* the internal empty PDU that is pending carries the sequence number remembered for it (established by next_transmit) */
 #define EMPTY_INV (!W_next_empty || (SN(W_he) == W_empty_sn && LLID(W_he) == 1 && LEN(W_he) == 0))
